@@ -3,7 +3,9 @@
 // Three case families, all through the public API:
 //
 //	M  media type strings  (PackManifest v1.0 with ConfigDescriptor.MediaType = s on a null pusher)
-//	T  created timestamps  (time.Parse(time.RFC3339, s), the function pack.go calls)
+//	T  created timestamps  (accepted or refused by pack.go's own validation, observed through PackManifest)
+//	L  the same strings through time.Parse(time.RFC3339, s) alone (first half of validateRFC3339)
+//	U  byte strings through json.Marshal/Unmarshal (coercion of invalid UTF-8)
 //	K  whole pack calls over a recording target (memory / OCI layout / file store,
 //	   with or without Exists, empty or pre-filled, optional injected storage fault)
 //
@@ -202,7 +204,27 @@ func createdAccepted(s string) (bool, error) {
 	return false, err
 }
 
+// parseCase: time.Parse(time.RFC3339, s) itself against the lenient recogniser of the model (the
+// first half of validateRFC3339), and against the documented lenient grammar.
+func parseCase(s string) {
+	id := run.NewID()
+	_, err := time.Parse(time.RFC3339, s)
+	obs := "0"
+	if err == nil {
+		obs = "1"
+		run.Count("parse_accepted")
+	} else {
+		run.Count("parse_rejected")
+	}
+	run.Case(id, "L "+common.Hex(s), obs)
+	if goRFC3339(s) != (err == nil) {
+		run.OracleFail(id, "time-recogniser", fmt.Sprintf("time.Parse(RFC3339, %q) ok=%v but the documented (lenient) grammar says %v", s, err == nil, goRFC3339(s)),
+			map[string]string{"op": "L", "hex": common.Hex(s)})
+	}
+}
+
 func timeCase(s string) {
+	parseCase(s)
 	id := run.NewID()
 	ok, err := createdAccepted(s)
 	obs := "0"
